@@ -168,6 +168,64 @@ theorem run_rinv (ops : List Op) (hg : ∀ op ∈ ops, goodOp op = true) :
   apply run_rinv_aux ops _ _ hg
   exact ⟨RWF_empty, by simp [MemTopics.new, absR_empty, absRets, Mqtt.Spec.TopicStore.empty]⟩
 
+/-! ### histories that also contain topics beginning with '$' -/
+
+/-- an operation the retained refinement admits: no empty level; a retained
+topic is a valid name (it may begin with '$': then both sides ignore it) -/
+def okOp (op : Op) : Bool :=
+  noEmptyLevel (opTopic op) && (match op with | .retain t _ _ => validName t | _ => true)
+
+theorem goodOp_okOp (op : Op) (h : goodOp op = true) : okOp op = true := by
+  simp only [goodOp, okOp, Bool.and_eq_true] at h ⊢
+  exact ⟨good_noEmptyLevel _ h.1, h.2⟩
+
+theorem modelStep_retain_sys (mt : MemTopics) (t : List UInt8) (q : Nat) (p : List UInt8)
+    (hd : checkSys t = true) : (modelStep mt (.retain t q p)).1 = mt := by
+  have hd' : checkSys ({ topic := t, qos := q, payload := p } : RMsg).topic = true := hd
+  simp only [modelStep, retain_of_sys _ _ hd']
+
+theorem step_rinv_any (mt : MemTopics) (rets : List Ret) (op : Op) (hg : okOp op = true)
+    (h : RInv mt.rroot rets) : RInv (modelStep mt op).1.rroot (specRets rets op) := by
+  cases hd : dollar (opTopic op) with
+  | false =>
+    apply step_rinv mt rets op _ h
+    simp only [okOp, Bool.and_eq_true] at hg
+    simp only [goodOp, Bool.and_eq_true]
+    exact ⟨good_of _ hg.1 hd, hg.2⟩
+  | true =>
+    cases op with
+    | sub f q sub => rw [modelStep_sub_rroot]; exact h
+    | unsub f sub => rw [modelStep_unsub_rroot]; exact h
+    | unsubAll f => rw [modelStep_unsubAll_rroot]; exact h
+    | subs t q => rw [modelStep_subs]; exact h
+    | retained f => rw [modelStep_retained]; exact h
+    | retain t q p =>
+      simp only [opTopic] at hd
+      rw [modelStep_retain_sys _ _ _ _ hd]
+      simp only [specRets, hd, Bool.true_or, ↓reduceIte]
+      exact h
+
+theorem run_rinv_any_aux (ops : List Op) :
+    ∀ (mt : MemTopics) (s : S), (∀ op ∈ ops, okOp op = true) → RInv mt.rroot s.rets →
+      RInv (ops.foldl (fun mt op => (modelStep mt op).1) mt).rroot
+           (ops.foldl (fun s op => (step s op).1) s).rets := by
+  induction ops with
+  | nil => intro mt s _ h; exact h
+  | cons op ops ih =>
+    intro mt s hg h
+    simp only [List.foldl_cons]
+    apply ih _ _ (fun o ho => hg o (by simp [ho]))
+    rw [step_rets]
+    exact step_rinv_any mt s.rets op (hg op (by simp)) h
+
+/-- after any history without empty levels whose retained topics are valid
+names - operations on topics beginning with '$' included - the retained trie
+refines the abstract store -/
+theorem run_rinv_any (ops : List Op) (hg : ∀ op ∈ ops, okOp op = true) :
+    RInv (mrun ops).rroot (srun ops).rets := by
+  apply run_rinv_any_aux ops _ _ hg
+  exact ⟨RWF_empty, by simp [MemTopics.new, absR_empty, absRets, Mqtt.Spec.TopicStore.empty]⟩
+
 /-! ### the query -/
 
 theorem selR_absRets (rets : List Ret) (fs : List Level) :
